@@ -1,5 +1,6 @@
 import NxModel.Nex.Backend
 import NxModel.Nex.BackendServe
+import NxModel.Nex.BackendConnAck
 import NxModel.DriverUtil
 /-! line-protocol driver for the back-end login model (see harness/corr_C17.py)
   plan <nexVersion> <clientVersion> <kd> <keySize> <pidSize> <authHost> <authPort> <username> <passwordhex|none> <authInfo 0|1>
@@ -13,6 +14,8 @@ import NxModel.DriverUtil
      accept <pid> <cid> <responsehex> | err <Name>
   creq <pidSize> <internalhex> <sessionkeyhex> <pid> <cid> <check>
   -> the CONNECT payload the client builds from these credentials (`Backend.connectRequest`), hex | err <Name>
+  cack <hasCredentials 0|1> <check> <connectAckPayloadHex>
+  -> the client's verdict on the answer to its CONNECT (`Backend.checkResponse`): ok | err <Name>
 -/
 open Nx Nx.Backend
 
@@ -103,7 +106,19 @@ def creqLine (line : String) : String :=
     | _, _, _, _, _, _ => "bad-op"
   | _ => "bad-op"
 
+def cackLine (line : String) : String :=
+  match (line.splitOn " ").filter (· ≠ "") with
+  | ["cack", cred, check, d] =>
+    match check.toNat?, fromHex d with
+    | some check, some d =>
+      match checkResponse (cred = "1") check d with
+      | .ok _ => "ok"
+      | .error e => "err " ++ e.name
+    | _, _ => "bad-op"
+  | _ => "bad-op"
+
 def step (line : String) : String :=
+  if line.startsWith "cack " then cackLine line else
   if line.startsWith "session " then sessionLine line else
   if line.startsWith "serve " then serveLine line else
   if line.startsWith "creq " then creqLine line else
